@@ -586,8 +586,10 @@ func keysOf(m map[string]map[string]bool) []string {
 }
 
 type eventCmp struct {
-	Expected  int // rules the model dispatches
-	Stored    int // rules stored (own + inherited)
+	Values    []interface{}
+	NBind     map[string]int // rule id -> number of binding sets evaluated
+	Expected  int            // rules the model dispatches
+	Stored    int            // rules stored (own + inherited)
 	Unspec    bool
 	ErrorDisp bool
 }
@@ -659,8 +661,11 @@ func (w *world) checkEvent(name string, event M, when string) eventCmp {
 		return ec
 	}
 	got := map[string]map[string]bool{}
+	ec.Values = work.Values
+	ec.NBind = map[string]int{}
 	for _, child := range work.Children {
 		id := child.Rule.Id
+		ec.NBind[id] += len(child.Bindingss)
 		if got[id] != nil {
 			w.o.Fail("DISPATCH_DUPLICATE", "%s: %s ProcessEvent(%s) evaluated rule %q twice", when, name, vlib.JSON(event), id)
 		}
@@ -835,4 +840,39 @@ func mapKeys(m map[string]string) []string {
 	}
 	sort.Strings(ks)
 	return ks
+}
+
+// setProp performs Location.SetProp on both sides.
+func (w *world) setProp(name, id, prop string, val interface{}) error {
+	err := w.locs[name].SetProp(newCtx(), id, prop, gen.DeepCopy(val))
+	if err == nil {
+		p := prop
+		if !strings.HasPrefix(p, "!") {
+			p = "!" + p
+		}
+		w.model[name].put(propId(id, strings.TrimPrefix(p, "!")), modelFactItem(M{"id": id, p: gen.DeepCopy(val), "deleteWith": A{id}}))
+	}
+	return err
+}
+
+// checkAll compares presence/value of every id of the universe and of the
+// model, the rule list and the storage key set.
+func (w *world) checkAll(name string, universe []string, when string) {
+	seen := map[string]bool{}
+	for _, id := range universe {
+		seen[id] = true
+		w.checkGet(name, id, when)
+	}
+	ids := make([]string, 0, len(w.model[name].Items))
+	for id := range w.model[name].Items {
+		ids = append(ids, id)
+	}
+	sort.Strings(ids)
+	for _, id := range ids {
+		if !seen[id] {
+			w.checkGet(name, id, when)
+		}
+	}
+	w.checkListRules(name, false, when)
+	w.checkStorage(name, when)
 }
